@@ -836,6 +836,21 @@ class H2Stream:
         self.state_machine.process_input(input_)
         return
 
+    def _process_local_input(self, input_):
+        """
+        Feed the state machine an input that stems from a call made by the
+        user rather than from a received frame. If the state machine refuses
+        the input nothing is going to be sent: the mistake is the user's, the
+        peer knows nothing about it, and so the stream stays exactly as it was
+        instead of being closed under the peer's feet.
+        """
+        state_before = dict(vars(self.state_machine))
+        try:
+            return self.state_machine.process_input(input_)
+        except ProtocolError:
+            vars(self.state_machine).update(state_before)
+            raise
+
     def send_headers(self, headers, encoder, end_stream=False,
                      priority_present=False):
         """
@@ -862,7 +877,7 @@ class H2Stream:
             input_ = StreamInputs.SEND_INFORMATIONAL_HEADERS
 
         state_before = dict(vars(self.state_machine))
-        events = self.state_machine.process_input(input_)
+        events = self._process_local_input(input_)
 
         try:
             # This has to be checked before the headers are encoded: encoding
@@ -887,7 +902,7 @@ class H2Stream:
         if end_stream:
             # Not a bug: the END_STREAM flag is valid on the initial HEADERS
             # frame, not the CONTINUATION frames that follow.
-            self.state_machine.process_input(StreamInputs.SEND_END_STREAM)
+            self._process_local_input(StreamInputs.SEND_END_STREAM)
             frames[0].flags.add('END_STREAM')
 
         if self.state_machine.client and self._authority is None:
@@ -912,9 +927,7 @@ class H2Stream:
         # Because encoding headers makes an irreversible change to the header
         # compression context, we make the state transition *first*.
 
-        events = self.state_machine.process_input(
-            StreamInputs.SEND_PUSH_PROMISE
-        )
+        events = self._process_local_input(StreamInputs.SEND_PUSH_PROMISE)
 
         ppf = PushPromiseFrame(self.stream_id)
         ppf.promised_stream_id = related_stream_id
@@ -950,12 +963,12 @@ class H2Stream:
             "Send data on %r with end stream set to %s", self, end_stream
         )
 
-        self.state_machine.process_input(StreamInputs.SEND_DATA)
+        self._process_local_input(StreamInputs.SEND_DATA)
 
         df = DataFrame(self.stream_id)
         df.data = data
         if end_stream:
-            self.state_machine.process_input(StreamInputs.SEND_END_STREAM)
+            self._process_local_input(StreamInputs.SEND_END_STREAM)
             df.flags.add('END_STREAM')
         if pad_length is not None:
             df.flags.add('PADDED')
@@ -973,7 +986,7 @@ class H2Stream:
         """
         self.config.logger.debug("End stream %r", self)
 
-        self.state_machine.process_input(StreamInputs.SEND_END_STREAM)
+        self._process_local_input(StreamInputs.SEND_END_STREAM)
         df = DataFrame(self.stream_id)
         df.flags.add('END_STREAM')
         return [df]
@@ -986,7 +999,7 @@ class H2Stream:
         self.config.logger.debug(
             "Advertise alternative service of %r for %r", field_value, self
         )
-        self.state_machine.process_input(StreamInputs.SEND_ALTERNATIVE_SERVICE)
+        self._process_local_input(StreamInputs.SEND_ALTERNATIVE_SERVICE)
         asf = AltSvcFrame(self.stream_id)
         asf.field = field_value
         return [asf]
@@ -999,7 +1012,7 @@ class H2Stream:
             "Increase flow control window for %r by %d",
             self, increment
         )
-        self.state_machine.process_input(StreamInputs.SEND_WINDOW_UPDATE)
+        self._process_local_input(StreamInputs.SEND_WINDOW_UPDATE)
         self._inbound_window_manager.window_opened(increment)
 
         wuf = WindowUpdateFrame(self.stream_id)
@@ -1191,7 +1204,7 @@ class H2Stream:
         self.config.logger.debug(
             "Local reset %r with error code: %d", self, error_code
         )
-        self.state_machine.process_input(StreamInputs.SEND_RST_STREAM)
+        self._process_local_input(StreamInputs.SEND_RST_STREAM)
 
         rsf = RstStreamFrame(self.stream_id)
         rsf.error_code = error_code
